@@ -191,6 +191,14 @@ func NewOutputPayload(ot common2.OutputType, variant int, f *Filler) common2.Out
 		o := &outputpayload.VoteOutput{}
 		f.Fill(o)
 		o.Version = byte(variant % 3)
+		if o.Version < outputpayload.VoteProducerAndCRVersion {
+			// version 0 carries candidates only: the well-formed value has no vote amounts
+			for i := range o.Contents {
+				for j := range o.Contents[i].CandidateVotes {
+					o.Contents[i].CandidateVotes[j].Votes = 0
+				}
+			}
+		}
 		return o
 	case common2.OTMapping:
 		o := &outputpayload.Mapping{}
@@ -417,9 +425,36 @@ func SmallTxs(f *Filler, n int) []interfaces.Transaction {
 			sh.Version = common2.TxVersionDefault
 			sh.Programs = 0
 		}
-		out = append(out, NewTx(t, pv, p, sh, f))
+		out = append(out, Canonical(NewTx(t, pv, p, sh, f)))
 	}
 	return out
+}
+
+// CanonicalPayload returns decode(encode(p)) at payload level.
+func CanonicalPayload(t common2.TxType, pv byte, p interfaces.Payload) interfaces.Payload {
+	b, err := payloadBytes(p, pv)
+	if err != nil {
+		return p
+	}
+	q, err := interfaces.GetPayload(t, pv)
+	if err != nil || q.Deserialize(bytes.NewReader(b), pv) != nil {
+		return p
+	}
+	return q
+}
+
+// Canonical returns decode(encode(tx)): the projection of a populated value onto what its
+// payload version carries on the wire (used where a container is compared strictly).
+func Canonical(tx interfaces.Transaction) interfaces.Transaction {
+	b, err := EncodeTx(tx)
+	if err != nil {
+		return tx
+	}
+	v, err := DecodeTx(bytes.NewReader(b))
+	if err != nil {
+		return tx
+	}
+	return v.(interfaces.Transaction)
 }
 
 func encodeSer(v interface{}) ([]byte, error) {
